@@ -26,6 +26,9 @@ def frac(text: str | int | Fraction) -> Any:
     return mpf(f.numerator) / mpf(f.denominator)
 
 
+STRICT_KINK = False  # set by a check while it compares derivatives
+
+
 class Dual:
     __slots__ = ("v", "d")
 
@@ -50,6 +53,9 @@ class Dual:
 
     def sqrt(self) -> "Dual":
         r = MP.sqrt(self.v)
+        if r == 0 and STRICT_KINK:
+            # sqrt at 0 (the norm of the zero vector) is not differentiable: no derivative to compare with
+            raise ZeroDivisionError("derivative of a square root at zero")
         return Dual(r, self.d / (2 * r) if r != 0 else mpf(0))
 
     def abs(self) -> "Dual":
